@@ -1269,7 +1269,124 @@ func xlateLockset(repo, out string) {
 		fmt.Fprintf(&b, "  %s%s\n", coqStr(f), sep)
 	}
 	b.WriteString("].\n")
+	b.WriteString("\n(* pooled connections taken with <db>.Conn(ctx): (function, variable, given back?) *)\n")
+	b.WriteString("Definition ls_brackets : list (string * string * bool) := [\n")
+	br := s.brackets()
+	for i, r := range br {
+		sep := ";"
+		if i == len(br)-1 {
+			sep = ""
+		}
+		fmt.Fprintf(&b, "  (%s, %s, %v)%s\n", coqStr(r[0]), coqStr(r[1]), r[2] == "true", sep)
+	}
+	b.WriteString("].\n")
 	if err := os.WriteFile(out, []byte(b.String()), 0o644); err != nil {
 		fatal(err)
 	}
+}
+
+// directories whose functions take pooled connections (trusted list)
+var lsBracketDirs = []string{"pkg/datasource/sql", "pkg/datasource/sql/undo/base",
+	"pkg/datasource/sql/datasource/base", "pkg/datasource/sql/datasource/mysql"}
+
+// brackets: every `v, err := X.Conn(arg)` in the listed directories, and whether the
+// function gives v back: a call v.Close() (deferred or not) anywhere in the function,
+// or v handed to a function of these directories that defers Close on that parameter.
+func (s *lsState) brackets() [][3]string {
+	closers := map[string]int{} // function name -> index of the parameter it closes
+	for _, d := range lsBracketDirs {
+		pk := s.pkgs[d]
+		if pk == nil {
+			continue
+		}
+		for _, f := range pk.files {
+			for _, decl := range f.Decls {
+				fd, ok := decl.(*ast.FuncDecl)
+				if !ok || fd.Body == nil {
+					continue
+				}
+				idx := 0
+				for _, fl := range fd.Type.Params.List {
+					for _, nm := range fl.Names {
+						if printNode(s.fset, fl.Type) == "*sql.Conn" && lsDefersClose(fd.Body, nm.Name) {
+							closers[fd.Name.Name] = idx
+						}
+						idx++
+					}
+				}
+			}
+		}
+	}
+	var out [][3]string
+	for _, d := range lsBracketDirs {
+		pk := s.pkgs[d]
+		if pk == nil {
+			continue
+		}
+		for _, f := range pk.files {
+			for _, decl := range f.Decls {
+				fd, ok := decl.(*ast.FuncDecl)
+				if !ok || fd.Body == nil {
+					continue
+				}
+				ast.Inspect(fd.Body, func(n ast.Node) bool {
+					as, ok := n.(*ast.AssignStmt)
+					if !ok || len(as.Rhs) != 1 || len(as.Lhs) != 2 {
+						return true
+					}
+					c, ok := as.Rhs[0].(*ast.CallExpr)
+					if !ok || len(c.Args) != 1 {
+						return true
+					}
+					se, ok := c.Fun.(*ast.SelectorExpr)
+					if !ok || se.Sel.Name != "Conn" {
+						return true
+					}
+					v, ok := as.Lhs[0].(*ast.Ident)
+					if !ok {
+						return true
+					}
+					closed := false
+					ast.Inspect(fd.Body, func(m ast.Node) bool {
+						cc, ok := m.(*ast.CallExpr)
+						if !ok {
+							return true
+						}
+						if s2, ok := cc.Fun.(*ast.SelectorExpr); ok {
+							if id, ok := s2.X.(*ast.Ident); ok && id.Name == v.Name && s2.Sel.Name == "Close" && len(cc.Args) == 0 {
+								closed = true
+							}
+							if k, ok := closers[s2.Sel.Name]; ok && k < len(cc.Args) {
+								if id, ok := cc.Args[k].(*ast.Ident); ok && id.Name == v.Name {
+									closed = true
+								}
+							}
+						}
+						return true
+					})
+					out = append(out, [3]string{lsShort(d) + "." + lsFuncName(fd), v.Name, fmt.Sprint(closed)})
+					return true
+				})
+			}
+		}
+	}
+	sort.Slice(out, func(i, j int) bool { return out[i][0]+out[i][1] < out[j][0]+out[j][1] })
+	return out
+}
+
+func lsDefersClose(body *ast.BlockStmt, name string) bool {
+	found := false
+	ast.Inspect(body, func(n ast.Node) bool {
+		d, ok := n.(*ast.DeferStmt)
+		if !ok {
+			return true
+		}
+		if se, ok := d.Call.Fun.(*ast.SelectorExpr); ok && se.Sel.Name == "Close" {
+			if id, ok := se.X.(*ast.Ident); ok && id.Name == name {
+				found = true
+			}
+		}
+		return true
+	})
+	return found
 }
